@@ -22,7 +22,8 @@ structure Num where
   m : Int
   e : Nat
 
-def Num.isZero (n : Num) : Bool := n.m == 0
+/-- the float is `0` (written `⟨0, 0⟩`; `⟨0, e+1⟩` stands for no float and is treated as a non-zero literal `0.00…`) -/
+def Num.isZero (n : Num) : Bool := n.m == 0 && n.e == 0
 def Num.toJson (n : Num) : Json := if n.e = 0 then .int n.m else .dec n.m n.e
 
 /-- `Annotated.Annotations` (a pointer to `{Audience []Role; Priority float64}`, both `omitempty`) -/
@@ -171,6 +172,7 @@ inductive Err where
   | unsupportedType (t : Text)
   | textMissing
   | imageMissing
+  | audioMissing
   | resourceMissing
   | uriMissing
   | unsupportedResource
@@ -182,8 +184,6 @@ inductive Err where
   | promptContentField
   /-- "failed to parse concrete content using parseContent: …" -/
   | promptContent (inner : Err)
-  /-- nil pointer dereference in `PromptMessage.UnmarshalJSON` (a `null` array element) -/
-  | panicNilDeref
 
 /-- the Go error text of the hand-written decoders -/
 def Err.msg : Err → Text
@@ -194,6 +194,7 @@ def Err.msg : Err → Text
   | .unsupportedType t => t!"unsupported content type: " ++ t
   | .textMissing => t!"text is missing"
   | .imageMissing => t!"image data or mimeType is missing"
+  | .audioMissing => t!"audio data or mimeType is missing"
   | .resourceMissing => t!"resource is missing"
   | .uriMissing => t!"resource uri is missing"
   | .unsupportedResource => t!"unsupported resource type"
@@ -201,37 +202,75 @@ def Err.msg : Err → Text
   | .promptStructure => t!"failed to unmarshal prompt message structure"
   | .promptContentField => t!"failed to unmarshal content field"
   | .promptContent e => t!"failed to parse concrete content using parseContent: " ++ e.msg
-  | .panicNilDeref => t!"panic"
 
-/-- mcp_tools.go `parseResourceContents` (the strict one, used for embedded resources) -/
+/-- mcp_tools.go `parseResourceContents` (used for embedded resources): `uri` must be a string, then `text` if it is a
+    string (empty included), else `blob` if it is a string -/
 def parseResourceContents (m : Obj) : Except Err ResourceContents :=
-  let uri := extractString m t!"uri"
-  if uri = [] then .error .uriMissing else
-  let mime := extractString m t!"mimeType"
-  let text := extractString m t!"text"
-  if text ≠ [] then .ok (.text uri mime text) else
-  let blob := extractString m t!"blob"
-  if blob ≠ [] then .ok (.blob uri mime blob) else
-  .error .unsupportedResource
+  match lookupStr? m t!"uri" with
+  | none => .error .uriMissing
+  | some uri =>
+    let mime := extractString m t!"mimeType"
+    match lookupStr? m t!"text" with
+    | some text => .ok (.text uri mime text)
+    | none =>
+      match lookupStr? m t!"blob" with
+      | some blob => .ok (.blob uri mime blob)
+      | none => .error .unsupportedResource
 
-/-- mcp_tools.go `parseContent` with `parseTextContent`, `parseImageContent`, `parseResourceContent`:
-    the switch knows "text", "image", "resource"; annotations are never read. -/
+/-- `[]Role` under `encoding/json`: strings, `null` leaves the zero value, anything else is a type error -/
+def parseAudience : List Json → Option (List Text)
+  | [] => some []
+  | .str s :: rest => (parseAudience rest).map (s :: ·)
+  | .null :: rest => (parseAudience rest).map ([] :: ·)
+  | _ :: _ => none
+
+/-- the annotations object under `encoding/json` (`none`: a type error somewhere — `parseAnnotated` then drops it all) -/
+def parseAnnotations (m : Obj) : Option Annotations :=
+  let aud : Option (List Text) := match lookup m t!"audience" with
+    | none => some []
+    | some .null => some []
+    | some (.arr xs) => parseAudience xs
+    | some _ => none
+  let pri : Option Num := match lookup m t!"priority" with
+    | none => some ⟨0, 0⟩
+    | some .null => some ⟨0, 0⟩
+    | some (.int i) => some ⟨i, 0⟩
+    | some (.dec mm e) => some ⟨mm, e⟩
+    | some _ => none
+  match aud, pri with
+  | some a, some p => some ⟨a, p⟩
+  | _, _ => none
+
+/-- mcp_tools.go `parseAnnotated`: the optional `annotations` object of a content item -/
+def parseAnnotated (m : Obj) : Option Annotations :=
+  match extractMap m t!"annotations" with
+  | none => none
+  | some am => parseAnnotations am
+
+/-- mcp_tools.go `parseContent` with `parseTextContent`, `parseImageContent`, `parseAudioContent`,
+    `parseResourceContent`: required fields must be present strings (empty allowed); embedded resources are taken under
+    both tags, `"resource"` (MCP schema) and `"embedded_resource"` (what `NewEmbeddedResource` writes). -/
 def parseContent (m : Obj) : Except Err Content :=
   let ty := extractString m t!"type"
   if ty = t!"text" then
-    let text := extractString m t!"text"
-    if text = [] then .error .textMissing else .ok (.text text none)
+    match lookupStr? m t!"text" with
+    | none => .error .textMissing
+    | some text => .ok (.text text (parseAnnotated m))
   else if ty = t!"image" then
-    let data := extractString m t!"data"
-    let mime := extractString m t!"mimeType"
-    if data = [] ∨ mime = [] then .error .imageMissing else .ok (.image data mime none)
-  else if ty = t!"resource" then
+    match lookupStr? m t!"data", lookupStr? m t!"mimeType" with
+    | some data, some mime => .ok (.image data mime (parseAnnotated m))
+    | _, _ => .error .imageMissing
+  else if ty = t!"audio" then
+    match lookupStr? m t!"data", lookupStr? m t!"mimeType" with
+    | some data, some mime => .ok (.audio data mime (parseAnnotated m))
+    | _, _ => .error .audioMissing
+  else if ty = t!"resource" ∨ ty = tagEmbedded then
     match extractMap m t!"resource" with
     | none => .error .resourceMissing
     | some rm =>
       match parseResourceContents rm with
       | .error e => .error e
-      | .ok rc => .ok (.embedded rc none)
+      | .ok rc => .ok (.embedded rc (parseAnnotated m))
   else .error (.unsupportedType ty)
 
 /-- the loop of `parseCallToolResult` over the `content` array (first failure wins, in order) -/
@@ -278,7 +317,6 @@ def parseResult (j : Json) : Except Err CallToolResult :=
 
 /-- mcp_prompts.go `PromptMessage.UnmarshalJSON` on one array element -/
 def parsePromptMessage : Json → Except Err PromptMessage
-  | .null => .error .panicNilDeref
   | .obj m =>
     let role : Option Text := match lookup m t!"role" with
       | none => some []
